@@ -112,5 +112,10 @@ func SweepNames() []string {
 		out = append(out, strings.Repeat("d/", n)+"x.go", strings.Repeat("D/", n)+"y.go")
 	}
 	out = append(out, strings.Repeat("n", 200), "dir/"+strings.Repeat("m", 200)+".go")
+	// near misses of the names that have a meaning
+	out = append(out, "cargo.mod", "sub/algo.mod", "tools/Mango.MOD", "go.mod.bak", "go.modx", "xgo.mod", "go.mo", "o.mod", "go_mod", "go.mod~", "sub/go.mod.orig",
+		"vendors/x.go", "myvendor/x.go", "vendor.go", "a/vendor.txt", "a/xvendor/b.go", "vendor-old/p/x.go",
+		"LICENSE.txt", "LICENSES", "xLICENSE", "license", "sub/License",
+		".hg_archival.txt.bak", "x.hg_archival.txt", ".hg_archival", ".gitx/config", ".git.go", "a/.gitignore", ".hgignore", ".svnx", "x.bzr/y")
 	return out
 }
